@@ -4,6 +4,7 @@ import ComposeVerif.Lemmas.C02StageDefaults
 import ComposeVerif.Lemmas.C02StageInterp
 import ComposeVerif.Lemmas.C02StagePaths
 import ComposeVerif.Lemmas.C02StageValidate
+import ComposeVerif.Lemmas.C02StageCanonical
 /-!
 # C02 — `stage_perm`: the loader stages do not depend on the order in which Go ranges over mappings
 
@@ -112,6 +113,42 @@ theorem resolvePaths_stage_perm (t : CV.Paths.Table) (cfg : CV.Paths.Cfg) (p : T
 theorem resolve_stage_perm (cfg : CV.Paths.Cfg) {v w : Val} (h : CV.Deep.Eqv v w) (wv : CV.Deep.WF v) (ww : CV.Deep.WF w) :
     PRel CV.Deep.Eqv (CV.Paths.resolve cfg v) (CV.Paths.resolve cfg w) := walk_eqv _ cfg _ h wv ww
 
+/-- the full-strength statement for `transform.Canonical`: the walk respects the equivalence at *every* path.  It is not
+proved: `transformMaybeExternal` (`volumes.*`, `networks.*`, `secrets.*`, `configs.*`) ends with `extname != name` on
+untyped values — a run-time panic in Go when both are mappings (one outcome in every order; replayed by
+`corpus/C02/stage-canonical-external-name-mappings.json`), and the derived, opaque `BEq` of `Val` in C03's model, about
+which nothing can be proved -/
+def CanonicalStagePerm : Prop :=
+  ∀ (ign : Bool) (p : TPath) (v w : Val), CV.Deep.Eqv v w → CV.Deep.WF v → CV.Deep.WF w →
+    ORel CV.Deep.Eqv (optS (CV.Short.transform ign p v)) (optS (CV.Short.transform ign p w))
+
+/-- **`transform.Canonical` as a whole tree walk, at every path at or below which `transformMaybeExternal` cannot match**
+(`NoExt p`): all nesting levels at once, the fourteen other handlers of the regenerated table with their helpers
+(`dependsMap`, `envFileValue`, `portEntries`, the `KEY=VALUE` / ssh / networks / depends_on list converters).  Trees
+equivalent up to the order of mapping entries at any depth become equivalent canonical trees, or both walks fail -/
+theorem canonical_stage_perm_partial (ign : Bool) (p : TPath) (hp : NoExt p) {v w : Val}
+    (h : CV.Deep.Eqv v w) (wv : CV.Deep.WF v) (ww : CV.Deep.WF w) :
+    ORel CV.Deep.Eqv (optS (CV.Short.transform ign p v)) (optS (CV.Short.transform ign p w)) :=
+  transform_eqv ign p hp h wv ww
+
+/-- in particular everywhere below `services` (every service, every attribute, every depth) -/
+theorem canonical_services_stage_perm (ign : Bool) (rest : List String) {v w : Val}
+    (h : CV.Deep.Eqv v w) (wv : CV.Deep.WF v) (ww : CV.Deep.WF w) :
+    ORel CV.Deep.Eqv (optS (CV.Short.transform ign ("services" :: rest) v)) (optS (CV.Short.transform ign ("services" :: rest) w)) :=
+  transform_eqv ign _ (noExt_services rest) h wv ww
+
+/-- every non-recursing case of every handler (also those of `transformMaybeExternal`) treats equivalent nodes alike -/
+theorem canonical_leaf_perm (hname : Option String) (ign : Bool) {v w : Val}
+    (h : CV.Deep.Eqv v w) (wv : CV.Deep.WF v) (ww : CV.Deep.WF w) :
+    ORel CV.Deep.Eqv (optS (CV.Short.leaf hname ign v)) (optS (CV.Short.leaf hname ign w)) := cong_leaf hname ign v w h wv ww
+
+/-- the rows of the regenerated table with the excluded handler: none starts with `services` or `*` -/
+theorem canonical_excluded_rows : ∀ row ∈ CV.Gen.transformers, row.2 = "transformMaybeExternal" →
+    row.1.head? ≠ some "*" ∧ row.1.head? ≠ some "services" ∧ row.1 ≠ [] := ext_rows_not_services
+
+/-- `Eqv` is reflexive on every tree (no distinct-keys hypothesis needed) -/
+theorem eqv_refl_all (v : Val) : CV.Deep.Eqv v v := eqvRefl v
+
 /-- **`validation.Validate` as a whole tree walk** (C10's model `CV.Validate.validate`: the `check` walk with its six
 rows and four checkers): trees equivalent up to the order of mapping entries at any depth are accepted or rejected alike.
 *Which* error a rejected tree gets depends on the order (`Neg.Env.validate_which_error_order_dependent`) -/
@@ -150,5 +187,12 @@ example : CV.Validate.validate (.map [("volumes", .map [("v", .int 5)]), ("confi
     CV.Validate.validate (.map [("configs", .map [("c", .map [])]), ("volumes", .map [("v", .int 5)])]) ≠ .ok ∧
     CV.Validate.validate (.map [("volumes", .map [("v", .null)]), ("configs", .map [("c", .map [("file", .str "f")])])]) = .ok := by
   decide
+
+/-- `NoExt` holds at a service and below; long-form `depends_on` in two orders gets the same defaults -/
+example : NoExt ["services", "web"] := noExt_services ["web"]
+example : CV.Short.transformDependsOn (.map [("db", .map [("condition", .str "service_healthy")]), ("c", .map [])]) =
+    .ok (.map [("db", .map [("condition", .str "service_healthy"), ("required", .bool true)]),
+      ("c", .map [("condition", .str "service_started"), ("required", .bool true)])]) := by
+  simp [CV.Short.transformDependsOn, CV.Short.dependsMap, CV.Short.dependsDefaults, CV.Short.hasKey, Val.lookup]
 
 end CV.Det.Stage.Props
